@@ -108,10 +108,16 @@ theorem C01_wrap_preserves_tokens (w : Nat) (s : Str) (ls : List Str) (h : textW
     ls.flatMap tokensWs = tokensWs s :=
   textWrap_tokens h
 
-/-- every wrapped line fits in the width -/
+/-- every wrapped line fits in the width, except a line that holds a single value which is itself longer than the width: that
+value stands alone and unbroken (a maximal run of non-blank characters of the row, no blank in it) -/
 theorem C01_wrap_line_length (w : Nat) (s : Str) (ls : List Str) (h : textWrap w s = some ls) :
-    ∀ l ∈ ls, l.length ≤ w :=
-  textWrap_length h
+    ∀ l ∈ ls, l.length ≤ w ∨ (l ∈ wrapChunks (wrapMunge s) ∧ ' ' ∉ l) :=
+  textWrap_length_or h
+
+/-- when every value (and every run of blanks) of the row fits in the width, every line does -/
+theorem C01_wrap_line_length_fits (w : Nat) (s : Str) (ls : List Str) (h : textWrap w s = some ls)
+    (hc : ∀ c ∈ wrapChunks (wrapMunge s), c.length ≤ w) : ∀ l ∈ ls, l.length ≤ w :=
+  textWrap_length h hc
 
 /-- **No output line is blank**: no line is empty, and when the only whitespace characters of the row are TextWrapper's
 (blank, TAB, LF, VT, FF, CR — always the case for a data row written under `CfgOK`) every line carries a token. -/
@@ -126,8 +132,13 @@ theorem C01_wrap_blank_line_exotic :
     textWrap 2 [Char.ofNat 0xA0, ' ', 'b'] = some [[Char.ofNat 0xA0], ['b']] ∧ tokensWs [Char.ofNat 0xA0] = [] := by
   decide
 
-/-- a chunk longer than the width is outside the model (TextWrapper would break the number in two) -/
-theorem C01_wrap_unmodelled_long : textWrap 3 "12345.5 1".toList = none := by decide
+/-- a value longer than the width gets a line of its own and is not cut (repair "wrapped data lines cut a value longer than
+data_width in two"); before the repair TextWrapper broke it (`12345.5` at width 3 → `123`, `45.`, `5`), which the model of the
+old call did not follow (`textWrapOld … = none`) and which the reader took for three values -/
+theorem C01_wrap_long_value_own_line :
+    textWrap 3 "12345.5 1".toList = some ["12345.5".toList, "1".toList] ∧
+    textWrap 3 " 1 12345.5 2 3".toList = some [" 1".toList, "12345.5".toList, "2 3".toList] ∧
+    textWrapOld 3 "12345.5 1".toList = none := by decide
 
 /-- **A NaN cell is written as the NULL text** (whatever the format), and under `CfgOK` it tokenises to `[NULL]` -/
 theorem C01_nan_marker (null : Str) (f : Fmt) (l : Int) (sp : Str) :
@@ -160,12 +171,12 @@ theorem C01_fmt_stable (N : Nat) (neg : Bool) (m' : Nat) (e' : Int) (q : Nat)
 
 /-- **The whole data section**: when `dataLines` emits `header :: body` under `CfgOK`, the whitespace tokens of the body lines,
 in order, are exactly the cell tokens of the rows in row-major order (so `rows × columns` tokens, each row contiguous);
-when wrapping, no body line is longer than `data_width` and none is empty. -/
+when wrapping, a body line is longer than `data_width` only if it is one unbroken value, and none is empty. -/
 theorem C01_lines_tokens (cfg : DataCfg) (null : Str) (mn : List Str) (rows : List (List F64)) (c : RowCfg)
     (hc : cfg.rowCfg = some c) (hok : CfgOK c null) (ls : List Str) (h : dataLines cfg null mn rows = some ls) :
     ∃ header body, ls = header :: body ∧
       body.flatMap tokensWs = rows.flatMap (rowTokens c null) ∧
-      (cfg.wrap = true → ∀ l ∈ body, l.length ≤ cfg.dataWidth ∧ l ≠ []) := by
+      (cfg.wrap = true → ∀ l ∈ body, (l.length ≤ cfg.dataWidth ∨ ' ' ∉ l) ∧ l ≠ []) := by
   unfold dataLines at h
   rw [hc] at h
   simp only at h
@@ -352,6 +363,9 @@ theorem C01_roundtrip_example :
 #print axioms C01_plain_token
 #print axioms C01_row_tokens
 #print axioms C01_wrap_preserves_tokens
+#print axioms C01_wrap_line_length
+#print axioms C01_wrap_line_length_fits
+#print axioms C01_wrap_long_value_own_line
 #print axioms C01_wrap_nonempty_lines
 #print axioms C01_fmt_stable
 #print axioms C01_lines_tokens
